@@ -77,6 +77,8 @@ def gen(rng, tier):
             s = scaled_units(rng)
         # every fifth structure is solved from its own .inkfempre text read back (the history pre -> solve x.inkfempre)
         cases.append(core.case_from_struct(s, Weight=core.weights(i), Solve=True, Assemble=True, Error=rng.choice(ERRORS), ViaPre=(i % 5 == 4)))
+    for k in range(4 if tier == "quick" else 16):
+        cases.append(core.case_from_struct(G.gen_tie_between_supports(rng, k), Weight=False, Solve=True, Assemble=True, Error="1e-5", ViaPre=(k >= 2 and k % 4 >= 2)))
     return cases + shipped_examples(tier)
 
 
